@@ -1512,6 +1512,60 @@ func runC20(ctx *Ctx, idx int) {
 		}
 	}
 
+	// ---- 1a'-numeric. the caller's value slice is its own too when it holds
+	// numbers: a batch loader refills the same []int32 / []uint64 for the next
+	// index. Flat key sets (every leaf on one level, met in key order) and the
+	// case's own keys, each with the matching bundled little-endian encoder.
+	if idx%4 == 1 {
+		for pass := 0; pass < 2; pass++ {
+			nkeys := keys
+			if pass == 1 {
+				nkeys = nil
+				w := 1 + idx%3
+				for i := 0; i < 40+idx%200; i++ {
+					b := make([]byte, w)
+					x := i * 3
+					for j := w - 1; j >= 0; j-- {
+						b[j] = byte(x)
+						x >>= 8
+					}
+					nkeys = append(nkeys, string(b))
+				}
+				nkeys = sortUniq(nkeys)
+			}
+			if len(nkeys) == 0 {
+				continue
+			}
+			nk := []string{"i16", "i32", "i64", "u16", "u32", "u64"}[(idx/4+pass)%6]
+			nv := genVals(r, nk, len(nkeys), 0)
+			sl := nv.Slice()
+			nst, nerr, npv, _ := buildTrie(nv.Encoder(), nkeys, sl, o.Opt())
+			if npv != nil || nerr != nil {
+				continue
+			}
+			nqs := nkeys
+			if len(nqs) > 300 {
+				nqs = nqs[:300]
+			}
+			before := digestAll(nst, nqs, []string{""})
+			rv := reflect.ValueOf(sl)
+			for i := 0; i < rv.Len(); i++ {
+				e := rv.Index(i)
+				if e.Kind() >= reflect.Int && e.Kind() <= reflect.Int64 {
+					e.SetInt(^e.Int())
+				} else {
+					e.SetUint(^e.Uint())
+				}
+			}
+			after := digestAll(nst, nqs, []string{""})
+			if which := before.diff(after, true); which != "" {
+				viol("value-buffer-retained", map[string]interface{}{"component": which, "shape": "numeric value slice", "element_type": nk, "flat_key_set": pass == 1,
+					"what": "overwriting the caller's numeric value slice after NewSlimTrie returned changed what the trie answers"})
+			}
+			ctx.Count("numeric_value_slices_overwritten_after_build", 1)
+		}
+	}
+
 	// ---- 1a''. values that are windows of one caller-owned block (records
 	// parsed in place): what lies behind each value - the next record - is the
 	// caller's too. Values shorter than the encoder's fixed size are outside
@@ -1834,7 +1888,7 @@ func init() {
 		NumCases:      c20NumCases,
 		Run:           runC20,
 		MinNontrivial: func(tier string) int { return 200 },
-		Gates: shapeGates("builds_snapshotted", "builds_with_caller_owned_option_slice", "builds_with_a_list_of_several_option_structs", "valkind_in_snapshots:f64", "value_buffer_overwrites_checked", "value_blocks_compared", "value_blocks_overwritten_after_build:4KiB+", "value_blocks_overwritten_after_build:64KiB+", "over_long_builds_snapshotted", "failed_loads_buffer_compared", "value_buffer_shape:1", "value_buffer_shape:2", "value_buffer_shape:3", "marshal_outputs_kept_alive", "input_overwrites_checked", "output_overwrites_checked", "guarded_streams", "guarded_key_sets", "layout:current", "layout:0.5.10", "layout:3sec",
+		Gates: shapeGates("builds_snapshotted", "builds_with_caller_owned_option_slice", "builds_with_a_list_of_several_option_structs", "valkind_in_snapshots:f64", "value_buffer_overwrites_checked", "value_blocks_compared", "numeric_value_slices_overwritten_after_build", "value_blocks_overwritten_after_build:4KiB+", "value_blocks_overwritten_after_build:64KiB+", "over_long_builds_snapshotted", "failed_loads_buffer_compared", "value_buffer_shape:1", "value_buffer_shape:2", "value_buffer_shape:3", "marshal_outputs_kept_alive", "input_overwrites_checked", "output_overwrites_checked", "guarded_streams", "guarded_key_sets", "layout:current", "layout:0.5.10", "layout:3sec",
 			"0510_streams_with_prefixes_to_reencode"),
 		Assumptions: []string{"retaining references to key strings is not forbidden by the statement; key memory is only write-protected", "debug.SetPanicOnFault turns SIGSEGV on the guarded mappings into recoverable panics (verified in selftest)"},
 	})
